@@ -126,7 +126,7 @@ class RouteLab(object):
                 node = L.vlan.Node(L.Address(mac), self.nets[ni])
                 nsap.bind(node, topo["nets"][ni], L.Address(mac))
                 macs[ni] = mac
-            self.routers.append(dict(nsap=nsap, ports=list(ports), mac=200 + ri, macs=macs))
+            self.routers.append(dict(nsap=nsap, ports=list(ports), mac=200 + ri, macs=macs, nse=nse))
             for i, st_ in enumerate(topo["stations"]):
                 if len(st_) > 3 and st_[4] == ri:
                     # a router that also hosts a device: an application on top of its network layer, at home on its last-bound network
@@ -214,6 +214,14 @@ def run_tree(topo, msgs):
     discovered = set()
     for step in msgs:
         batch = []
+        if step and step[0][1] == "nni":
+            # the routers announce the numbers of their networks: stations that did not know theirs learn it (and keep what they had learned before)
+            for r_ in lab.routers:
+                r_["nse"].network_number_is()
+            if not lab.run():
+                return [("runaway-traffic:tree", "Network-Number-Is")], stats
+            stats["nni"] = stats.get("nni", 0) + 1
+            continue
         for si, kind, target in step:
             si = si % len(topo["stations"])
             snet = topo["stations"][si][0]
@@ -462,7 +470,8 @@ def msgs_strategy():
     # each message is sent twice: cold, then warm
     # crossing traffic: messages from different stations in the same instant (path discovery of one interleaves with traffic of the other)
     cross = st.lists(m, min_size=2, max_size=4)
-    return st.lists(st.one_of(single, single, single, burst, cross, cross), min_size=1, max_size=6).map(lambda l: [s for step in l for s in (step, step)])
+    nni = st.just([[0, "nni", 0]])
+    return st.lists(st.one_of(single, single, single, burst, cross, cross, nni), min_size=1, max_size=6).map(lambda l: [s for step in l for s in (step, step)])
 
 
 def plan(tier, seed):
